@@ -96,6 +96,36 @@ def r_pairing(F, R, cat=None):
         ex = [c for c in calls if c[0] == ("Extend", "extend")]
         ok = len(ex) == 1
         why = ""
+        if not ex:
+            # the appending loop is written out (or came in through a private helper): the same
+            # pairing as in copy/extend, on the stack that is being built
+            from core import all_ctxs
+            P, I = [], []
+            for c2 in all_ctxs(F, b):
+                for (bi, t) in c2.body.calls():
+                    tg = callee_tag(t.get("callee"))
+                    if tg == ("Push", "push") and len(t["args"]) == 2:
+                        P.append((c2, bi, t))
+                    elif tg == ("IndexContainer", "push") and len(t["args"]) == 2:
+                        I.append((c2, bi, t))
+            if not P and not I:
+                R.undecided_site("R-PAIRING", b.label(), "from_iter neither calls extend nor pushes: how the stack is filled was not recognised")
+                continue
+            ok = len(P) == 1 and len(I) == 1
+            if ok:
+                (pc, pbi, pt), (ic, ibi, itt) = P[0], I[0]
+                a = operand_tree(ic, itt["args"][1])
+                rr = operand_tree(pc, pt["args"][0])
+                ir = operand_tree(ic, itt["args"][0])
+                same_stack = rr[0] == ir[0] == "place" and rr[1:3] == ir[1:3] and tuple(rr[3][:-1]) == tuple(ir[3][:-1]) or \
+                    (strip_bb(rr)[:3] == strip_bb(ir)[:3])
+                ok = pc is ic and a[0] == "call" and a[1] == ("Push", "push") and a[4] == pbi and a[3] == () and bool(same_stack)
+                why = "written-out loop: indices.push(%s); same stack: %s" % (show(a)[:60], bool(same_stack))
+            else:
+                why = "%d region pushes vs %d index pushes" % (len(P), len(I))
+            R.check("R-PAIRING", b.label(), ok, construct="from_iter = with_capacity + extend(iter)",
+                    where=b.where(), detail=why)
+            continue
         if ok:
             from r_lifecycle import fresh_value
             _, effs = cat.effects(b)
